@@ -34,6 +34,13 @@ func (f *Float) Val() any {
 }
 
 func (f *Float) SubtractFromFloat(num uint) error {
+	// The digit-preserving path below works on the unsigned integer part,
+	// so it is only valid while the result stays non-negative
+	if f.Value < float64(num) {
+		f.Value -= float64(num)
+		return nil
+	}
+
 	// Convert the float to a string
 	strValue := strconv.FormatFloat(f.Value, 'f', -1, 64)
 
